@@ -332,3 +332,76 @@ def converged(vc):
     else:
         vc.ensure("O-C18-converged.not-yet", (not bool(done)) and len(f.models) == n and not built)
         vc.ensure("O-C18-converged.single-survivor", True)
+
+
+@obligation("C18", "sequence_bounded", ensures=["B-C18-seq.probabilities-valid", "B-C18-seq.bayes", "B-C18-seq.one-remains", "B-C18-seq.moment-matched", "B-C18-seq.closure-survivor"],
+            fns=[SM + "StaticMultipleModel.update", SM + "StaticMultipleModel._prunedToSingleModel", SM + "StaticMultipleModel._convergedToSingleModel", AF + "AdaptiveFilter.prune",
+                 AF + "AdaptiveFilter._compileUpdateStep", AF + "AdaptiveFilter._resumeSequentialFiltering"], mode="R", native_only=True, samples=150,
+            bounded="BOUNDED stand-in, not a proof: 150 (quick) / 1500 (thorough) random runs per run of the real StaticMultipleModel with 2..30 models, measurement dimension 1..3, state dimension 6, "
+                    "up to 12 observation steps until closure, random pruning thresholds / convergence percentages, including steps whose likelihoods all underflow; the proofs above stop at 3 models",
+            note="after every update: probabilities finite, >= 0, sum to one and equal prior x Gaussian likelihood renormalised over the models alive (uniform on underflow) before pruning; at least one model remains; "
+                 "the combined estimate/covariance are the probability-weighted mean and the moment-matched mixture (symmetric PSD); at closure the filter handed back is built from the single surviving model")
+def sequence_bounded(vc):
+    from unittest import mock
+    import resonaate.estimation.adaptive.smm as smm
+    import resonaate.estimation.adaptive.mmae_stacking_utils as msu
+    from resonaate.estimation.sequential_filter import FilterFlag
+    rng = np.random.default_rng(vc.int("seed", 0, 10 ** 9))
+    n = vc.int("models", 2, 30)
+    m = vc.int("meas_dim", 1, 3)
+    thr = [1e-12, 1e-6, 1e-3, 0.02][vc.int("thr_idx", 0, 3)]
+    pct = [0.6, 0.9, 0.997][vc.int("pct_idx", 0, 2)]
+    underflow_step = vc.int("underflow_step", 0, 20)  # (a step index beyond the run means no underflow step)
+
+    def spd(k, scale=1.0):
+        A = rng.normal(size=(k, k))
+        return (A @ A.T + 0.3 * k * np.eye(k)) * scale
+    models = [_NS(tag=i, est_x=rng.normal(size=6) * 100, est_p=spd(6), pred_x=rng.normal(size=6) * 100, pred_p=spd(6), time=1.0, source="Observation",
+                  nis=1.0, innov_cvr=np.eye(m), innovation=np.zeros(m), true_y=np.zeros(m), update=lambda obs: None, is_angular=np.zeros(m, dtype=bool), r_matrix=np.eye(m),
+                  mean_pred_y=np.zeros(m), cross_cvr=np.zeros((6, m)), kalman_gain=np.zeros((6, m))) for i in range(n)]
+    built = {}
+    f = object.__new__(smm.StaticMultipleModel)
+    f.__dict__.update(models=list(models), model_weights=np.full(n, 1.0 / n), model_likelihoods=np.ones(n), mode_probabilities=np.ones(n), num_models=n, prune_threshold=thr,
+                      prune_percentage=pct, target_id=7, time=0.0, x_dim=6, stacking_method=msu.eciStack, est_x=np.zeros(6), pred_x=np.zeros(6), _flags=FilterFlag.ADAPTIVE_ESTIMATION_START,
+                      _filter_class=lambda **kw: (built.update(kw), _NS())[1], dynamics="dyn", q_matrix="Q", maneuver_detection="md", _original_filter=_NS(extra_parameters={}),
+                      is_angular=None, innovation=None, nis=1.0, source=None, mean_pred_y=None, r_matrix=None, cross_cvr=None, innov_cvr=None, kalman_gain=None, maneuver_metric=None,
+                      true_y=np.zeros(m), logger=__import__("logging").getLogger("pyvc"))
+    ok = {k: True for k in ("valid", "bayes", "remains", "moments", "closure")}
+    closed = False
+    with mock.patch.object(smm.AdaptiveFilter, "update", lambda self, obs: None):
+        for step in range(12):
+            alive = list(f.models)
+            prior = np.array(f.model_weights, dtype=float)
+            for mod in alive:
+                mod.innov_cvr = spd(m)
+                mod.nis = float(rng.chisquare(m) * rng.choice([0.2, 1.0, 5.0, 40.0])) + (3000.0 if step == underflow_step else 0.0)
+                mod.innovation = rng.normal(size=m)
+                mod.est_x = mod.est_x + rng.normal(size=6)
+            lik = np.array([np.exp(-0.5 * mod.nis) / np.sqrt((2 * np.pi) ** m * np.linalg.det(mod.innov_cvr)) for mod in alive])
+            post = prior * lik
+            post = np.ones_like(post) / len(post) if abs(post.sum()) < 1e-15 else post / post.sum()
+            # what the posterior must be after pruning: models below the threshold removed (never all), the rest renormalised
+            keep = [i for i in range(len(alive)) if not post[i] < thr]
+            if not keep:
+                keep = [int(np.argmax(post))]
+            want = post[keep] / post[keep].sum()
+            f.update(["obs"])
+            w = np.array(f.model_weights, dtype=float)
+            ok["valid"] &= bool(np.all(np.isfinite(w)) and np.all(w >= 0) and abs(w.sum() - 1) < 1e-9 and len(w) == len(f.models))
+            ok["remains"] &= len(f.models) >= 1
+            if FilterFlag.ADAPTIVE_ESTIMATION_CLOSE in f.flags:
+                closed = True
+                ok["closure"] &= len(f.models) == 1 and bool(np.allclose(built.get("est_x"), f.models[0].est_x)) and bool(np.allclose(built.get("est_p"), f.models[0].est_p))
+                if len(keep) == 1:
+                    ok["closure"] &= f.models[0].tag == alive[keep[0]].tag
+                break
+            ok["bayes"] &= [mod.tag for mod in f.models] == [alive[i].tag for i in keep] and bool(np.allclose(w, want, rtol=1e-9, atol=1e-12))
+            mean = sum(wi * mod.est_x for wi, mod in zip(w, f.models))
+            cov = sum(wi * (mod.est_p + np.outer(mod.est_x - mean, mod.est_x - mean)) for wi, mod in zip(w, f.models))
+            ok["moments"] &= bool(np.allclose(f.est_x, mean, rtol=1e-9, atol=1e-9) and np.allclose(f.est_p, cov, rtol=1e-9, atol=1e-9) and np.allclose(f.est_p, f.est_p.T)
+                                  and np.linalg.eigvalsh(f.est_p).min() > -1e-6 * abs(f.est_p).max())
+    vc.ensure("B-C18-seq.probabilities-valid", bool(ok["valid"]))
+    vc.ensure("B-C18-seq.bayes", bool(ok["bayes"]))
+    vc.ensure("B-C18-seq.one-remains", bool(ok["remains"]))
+    vc.ensure("B-C18-seq.moment-matched", bool(ok["moments"]))
+    vc.ensure("B-C18-seq.closure-survivor", bool(ok["closure"]))
